@@ -4,7 +4,7 @@
 //       MacroMetadata::_contains_named_args and to the REAL (private, static)
 //       BackendWorker::_process_named_args_format_message; output: detection flag, positional template, keys.
 //   h_named logj <out.ndjson>
-//       the fixed statements compiled through the real LOGJ_/LOG_ macros: case number, template as the macro
+//       the magic separator of the implementation (QUILL_MAGIC_SEPARATOR), then the fixed statements compiled through the real LOGJ_/LOG_ macros: case number, template as the macro
 //       generates it, argument types.
 //   h_named e2e <script.txt> <out.ndjson> <json-file>
 //       end to end: each statement is logged through the real frontend (run-time MacroMetadata, whose constructor
@@ -304,6 +304,8 @@ static int logj_mode(char const* out)
 {
   FILE* o = std::fopen(out, "w");
   if (!o) return 2;
+  // constants of the implementation the check concretises value classes from
+  std::fprintf(o, "{\"sep\":%s}\n", jq(QUILL_MAGIC_SEPARATOR).c_str());
   for (auto const& c : kJCases)
     std::fprintf(o, "{\"k\":%d,\"tpl\":%s,\"types\":\"%s\",\"lvl\":%d}\n", c.k, jq(c.tpl).c_str(), c.types, c.lvl);
   std::fclose(o);
